@@ -1,5 +1,6 @@
 import ParryModel.Proto
 import ParryModel.C06.Model
+import ParryModel.C06.Cull
 /-!
 C06 protocol handlers: model evaluation at `Float` (bit-exact against the harness) and exact-`Rat` oracles that
 re-judge the implementation's output against the property, independently of the model functions.
@@ -590,11 +591,90 @@ def pfree2 : P (Iso2 Float × V2 Float × FShape × Iso2 Float × V2 Float × FS
 def pfreeOut3 : P (Option RHit) := do let h ← pohit3; pure (h.map rhit3)
 def pfreeOut2 : P (Option RHit) := do let h ← pohit2; pure (h.map rhit2)
 
+/-! ### broad-phase box test of the composite cast (`cull3` / `cull2`)
+
+Independent of the model (which follows the code: centre / half-extents / margin / slab loop): the box of the posed shape 2
+is recomputed by brute force from its definition (ball: centre ± r; cuboid: min / max over the posed vertices, exact
+rotation), and the set of times at which the two boxes are within `target` of each other on EVERY axis — a necessary
+condition for the Euclidean distance of anything inside them to be ≤ `target` — is computed by exact interval arithmetic.
+The node must be kept whenever that set meets `[0, max]`, and its weight must not exceed the first such time (the best-first
+search relies on the weight being a lower bound).  Keeping a node that could have been dropped is not an error. -/
+def exactBox (f : Frame) : FShape → Option (V3 Rat × V3 Rat)
+  | .ball r => let R := q r; some (f.t.sub ⟨R, R, R⟩, f.t.add ⟨R, R, R⟩)
+  | .cuboid he =>
+    let H := q3 he
+    let vs : List (V3 Rat) := [1, -1].flatMap fun (sx : Rat) => [1, -1].flatMap fun (sy : Rat) => [1, -1].map fun (sz : Rat) =>
+      f.act ⟨sx * H.x, sy * H.y, sz * H.z⟩
+    match vs with
+    | [] => none
+    | v :: rest => some (rest.foldl (fun (acc : V3 Rat × V3 Rat) p =>
+        (⟨min acc.1.x p.x, min acc.1.y p.y, min acc.1.z p.z⟩, ⟨max acc.2.x p.x, max acc.2.y p.y, max acc.2.z p.z⟩)) (v, v))
+  | _ => none
+
+def cullOracle (dim : Nat) (f : Frame) (v : V3 Rat) (g : FShape) (maxToi target : Rat) (lo hi : V3 Rat) (out : List String) : String :=
+  if !f.unitOk then "skip non-unit-rotation" else
+  if target < 0 ∨ maxToi ≤ 0 then "skip options-outside-domain" else
+  match exactBox f g with
+  | none => "skip shape-not-modelled"
+  | some (blo, bhi) =>
+    withOut (do let m ← pbool; let t ← pfo; pure (m, t)) out fun (mask, toiF) =>
+      if !FloatIO.isFinite toiF then "fail nonfinite-weight" else
+      let toi := q toiF
+      let axes : List (Rat × Rat × Rat) :=   -- (L, U, v): t·v must lie in [L, U]
+        [(lo.x - bhi.x - target, hi.x - blo.x + target, v.x), (lo.y - bhi.y - target, hi.y - blo.y + target, v.y)] ++
+        (if dim = 3 then [(lo.z - bhi.z - target, hi.z - blo.z + target, v.z)] else [])
+      let scale : Rat := 1 + normAbs lo + normAbs hi + normAbs blo + normAbs bhi + target
+      let tolA := tolDefault * scale
+      -- axes without motion: signed room (negative: never within target on that axis)
+      let room0 : Rat := (axes.filter fun a => a.2.2 = 0).foldl (fun m a => min m (min (-a.1) a.2.1)) (scale * 4)
+      -- axes with motion: the time interval
+      let ivs : List (Rat × Rat) := (axes.filter fun a => a.2.2 ≠ 0).map fun a =>
+        let t1 := a.1 / a.2.2; let t2 := a.2.1 / a.2.2; (min t1 t2, max t1 t2)
+      let t0 := ivs.foldl (fun m i => max m i.1) 0
+      let t1 := ivs.foldl (fun m i => min m i.2) maxToi
+      -- rounding of the box corners moves an interval end by about tolA / |v|
+      let tolT := tolDefault * (1 + rabs t0) + (ivs.zip (axes.filter fun a => a.2.2 ≠ 0)).foldl (fun m ia => max m (tolA / rabs ia.2.2.2)) 0
+      if toi < 0 then "fail negative-weight" else
+      if room0 ≥ tolA ∧ t1 - t0 ≥ tolT then
+        if !mask then s!"fail node-culled-although-the-boxes-come-within-target-distance first-time={t0} target={target}"
+        else if toi > t0 + tolT then s!"fail weight-above-the-first-time-within-target weight={toi} first-time={t0}"
+        else "pass"
+      else if room0 ≤ -tolA ∨ t1 - t0 ≤ -tolT then "pass"     -- nothing is due: the boxes are never within target on [0, max]
+      -- a tie within rounding: dropping the node cannot be blamed, but a kept node still needs an admissible weight
+      else if mask then (if toi > t0 + tolT then s!"fail weight-above-the-first-time-within-target weight={toi} first-time={t0}" else "pass")
+      else "skip tie-within-rounding"
+
 def fiso3 (m : Iso3 Float) : String := s!"{ff m.qi} {ff m.qj} {ff m.qk} {ff m.qw} {fv3 m.t}"
 def fiso2 (m : Iso2 Float) : String := s!"{ff m.re} {ff m.im} {fv2 m.t}"
 
 def handler (fn : String) : Option Handler :=
   match fn with
+  | "cull3" => some {
+      model := fun a => run (do
+        let m ← piso3; let v ← pv3; let g ← pshape 3; let mx ← pf; let tg ← pf; let lo ← pv3; let hi ← pv3
+        let r : Option (Bool × Float) := match g with
+          | .ball r => some (cullBall3 m r ⟨lo, hi⟩ v mx tg)
+          | .cuboid he => some (cullCuboid3 m he ⟨lo, hi⟩ v mx tg)
+          | _ => none
+        pure (match r with | some (k, w) => s!"{fb k} {ff w}" | none => "unmodelled-shape")) a
+      oracle := fun a out => match run (do let m ← piso3; let v ← pv3; let g ← pshape 3; let mx ← pf; let tg ← pf; let lo ← pv3; let hi ← pv3; pure (m, v, g, mx, tg, lo, hi)) a with
+        | some (m, v, g, mx, tg, lo, hi) =>
+          if !(FloatIO.isFinite mx && FloatIO.isFinite tg) then "skip options-outside-domain" else
+          cullOracle 3 (frame3 m) (q3 v) g (q mx) (q tg) (q3 lo) (q3 hi) out
+        | none => "skip bad-args" }
+  | "cull2" => some {
+      model := fun a => run (do
+        let m ← piso2; let v ← pv2; let g ← pshape 2; let mx ← pf; let tg ← pf; let lo ← pv2; let hi ← pv2
+        let r : Option (Bool × Float) := match g with
+          | .ball r => some (cullBall2 m r ⟨lo, hi⟩ v mx tg)
+          | .cuboid he => some (cullCuboid2 m ⟨he.x, he.y⟩ ⟨lo, hi⟩ v mx tg)
+          | _ => none
+        pure (match r with | some (k, w) => s!"{fb k} {ff w}" | none => "unmodelled-shape")) a
+      oracle := fun a out => match run (do let m ← piso2; let v ← pv2; let g ← pshape 2; let mx ← pf; let tg ← pf; let lo ← pv2; let hi ← pv2; pure (m, v, g, mx, tg, lo, hi)) a with
+        | some (m, v, g, mx, tg, lo, hi) =>
+          if !(FloatIO.isFinite mx && FloatIO.isFinite tg) then "skip options-outside-domain" else
+          cullOracle 2 (frame2 m) (e2 (q2 v)) g (q mx) (q tg) (e2 (q2 lo)) (e2 (q2 hi)) out
+        | none => "skip bad-args" }
   | "ray_ball3" => some {
       model := fun a => run (do
         let c ← pv3; let r ← pf; let o ← pv3; let d ← pv3; let solid ← pbool
@@ -804,6 +884,7 @@ def handler (fn : String) : Option Handler :=
       oracle := fun a out => match run pfree3 a with
         | some (p1, v1, g1, p2, v2, g2, o) =>
           if !optsOk o then "skip options-outside-domain" else
+          if !(frame3 p1).unitOk ∨ !(frame3 p2).unitOk then "skip non-unit-rotation" else
           let sz := 1 + g1.size + g2.size + normAbs (q3 p1.t) + normAbs (q3 p2.t) + q o.target
           e2eOracle 3 sz (normAbs ((q3 v2).sub (q3 v1))) (ropts o) out
         | none => "skip bad-args" }
@@ -812,6 +893,7 @@ def handler (fn : String) : Option Handler :=
       oracle := fun a out => match run pfree2 a with
         | some (p1, v1, g1, p2, v2, g2, o) =>
           if !optsOk o then "skip options-outside-domain" else
+          if !(frame2 p1).unitOk ∨ !(frame2 p2).unitOk then "skip non-unit-rotation" else
           let sz := 1 + g1.size + g2.size + normAbs (e2 (q2 p1.t)) + normAbs (e2 (q2 p2.t)) + q o.target
           e2eOracle 2 sz (normAbs (e2 ((q2 v2).sub (q2 v1)))) (ropts o) out
         | none => "skip bad-args" }
